@@ -228,6 +228,21 @@ func genOpt6(r *Rng, code int, depth int, loose bool) dhcpv6.Option {
 		n := r.Range(0, 8)
 		seen := map[int]bool{}
 		var cs []dhcpv6.OptionCode
+		if r.Chance(1, 8) {
+			// a long request list (a decoder may treat long lists differently from
+			// short ones): 17..48 codes out of a small range, so that two such lists
+			// in one run share most of their codes
+			n = r.Range(17, 48)
+			for i := 0; i < n; i++ {
+				c := r.Range(1, 64)
+				if seen[c] && !loose {
+					continue
+				}
+				seen[c] = true
+				cs = append(cs, dhcpv6.OptionCode(c))
+			}
+			return dhcpv6.OptRequestedOption(cs...)
+		}
 		for i := 0; i < n; i++ {
 			c := r.Pick([]int{23, 24, 59, 60, 17, 56, 0, 65535, 300})
 			if seen[c] && !loose {
@@ -446,8 +461,63 @@ func tlvLenOffsets(b []byte) []int {
 }
 
 // genWire6 generates wire bytes for the DHCPv6 decoders.
+// genReframed6: a message (possibly inside one relay level) whose framing is
+// consistent at every level, with the VALUE of one option damaged (last octet
+// dropped, an octet added, first octet dropped, cut in half): the option's own
+// parser meets a malformed value and must reject it - the error paths of the
+// per-option parsers, which truncating or perturbing the whole datagram reaches
+// only when the damaged option happens to be the last one.
+func genReframed6(r *Rng) []byte {
+	bad, _ := genReframedPair6(r)
+	return bad
+}
+
+// genReframedPair6: the damaged datagram of genReframed6 and its intact twin.
+func genReframedPair6(r *Rng) (bad, good []byte) {
+	m := genMsg6(r, 0, false)
+	msg, ok := m.(*dhcpv6.Message)
+	if !ok || len(msg.Options.Options) == 0 {
+		return m.ToBytes(), m.ToBytes()
+	}
+	good = m.ToBytes()
+	k := r.Intn(len(msg.Options.Options))
+	b := []byte{byte(msg.MessageType), msg.TransactionID[0], msg.TransactionID[1], msg.TransactionID[2]}
+	for i, o := range msg.Options.Options {
+		v := o.ToBytes()
+		if i == k {
+			switch r.Intn(4) {
+			case 0:
+				if len(v) > 0 {
+					v = v[:len(v)-1]
+				}
+			case 1:
+				v = append(append([]byte{}, v...), byte(r.Intn(256)))
+			case 2:
+				if len(v) > 0 {
+					v = v[1:]
+				}
+			default:
+				v = v[:len(v)/2]
+			}
+		}
+		c := int(o.Code())
+		b = append(b, byte(c>>8), byte(c), byte(len(v)>>8), byte(len(v)))
+		b = append(b, v...)
+	}
+	if r.Chance(1, 3) {
+		// one relay level around it
+		rel := []byte{12, byte(r.Intn(4))}
+		rel = append(rel, r.Bytes(32)...)
+		rel = append(rel, 0, 9, byte(len(b)>>8), byte(len(b)))
+		return append(rel, b...), good
+	}
+	return b, good
+}
+
 func genWire6(r *Rng) ([]byte, string) {
-	switch r.Intn(12) {
+	switch r.Intn(14) {
+	case 12, 13:
+		return genReframed6(r), "value-damaged-reframed"
 	case 0, 1, 2, 3:
 		return genMsg6(r, r.Range(0, 3), false).ToBytes(), "encoded"
 	case 4:
